@@ -458,3 +458,28 @@ def member_default_args_hook(name, objtype_rx, cname, callee_decl):
         P.note(f'{name}(...) with default arguments -> {cname}')
         return f'{cname}({P.expr(obj) if me.get("isArrow") else P.addr(obj)}{"".join(", " + x for x in out)})'
     return h
+
+
+# ----------------------------------------------------------------------------- overloaded member functions
+def member_overload_hook(table):
+    """member calls whose overloads share a name (getter `x()` / setters `x(const string&)`, `x(const T&)`): the `members=`
+    key 'name|object type' cannot tell them apart, so this hook keys on 'name|object type|(argument types)' (desugared,
+    cv- and reference-stripped, comma separated; `()` for no argument).  table: [(regex, mapping)] with the usual mapping
+    forms; calls that match no entry fall through to the ordinary member table."""
+    def h(P, n):
+        if n.get('kind') != 'CXXMemberCallExpr':
+            return None
+        me = n['inner'][0]
+        if me.get('kind') != 'MemberExpr':
+            return None
+        obj = me['inner'][0]
+        objt = re.sub(r'\s*\*$', '', strip_cv(qual(obj['type'])))     # x.f() and p->f() have the same key
+        args = n['inner'][1:]
+        at = ', '.join(re.sub(r'\s*&+$', '', strip_cv(qual(a['type']))) for a in args if a.get('kind') != 'CXXDefaultArgExpr')
+        key = f'{me["name"]}|{objt}|({at})|' + ','.join(a.get('valueCategory', '?') for a in args if a.get('kind') != 'CXXDefaultArgExpr')
+        for rx, m in table:
+            if re.search(rx, key):
+                selfexpr = P.expr(obj) if me.get('isArrow') else P.addr(obj)
+                return P.apply(m, args, selfexpr=selfexpr, node=n, key=key)
+        return None
+    return h
